@@ -204,7 +204,7 @@ def run_check(pid, tier, seed):
             known_seen[v["mechanism"]] = known_seen.get(v["mechanism"], 0) + 1
         else:
             new.append(v)
-    rep_dir = os.path.join(HOME, "replays", pid)
+    rep_dir = os.path.join(os.environ.get("GCVERIF_REPLAY_DIR") or os.path.join(HOME, "replays"), pid)
     lines = []
     seen_mech = {}
     for v in new:
@@ -241,8 +241,9 @@ def run_check(pid, tier, seed):
         "wall_s": round(wall, 2),
         "violations": len(new),
     }
-    os.makedirs(os.path.join(HOME, "evidence"), exist_ok=True)
-    json.dump(ev, open(os.path.join(HOME, "evidence", f"{pid}.json"), "w"), indent=1)
+    evdir = os.environ.get("GCVERIF_EVIDENCE_DIR") or os.path.join(HOME, "evidence")
+    os.makedirs(evdir, exist_ok=True)
+    json.dump(ev, open(os.path.join(evdir, f"{pid}.json"), "w"), indent=1)
     shutil.rmtree(work, ignore_errors=True)
     out(f"[{pid} {tier} seed={seed}] cases={counters.get('cases', 0)} evaluations={evaluations} "
           f"distinct_nontrivial={len(nontrivial)} violations={len(new)} known={sum(known_seen.values())} "
